@@ -833,3 +833,57 @@ func runGovKinds(seed int64, cw *CaseWriter, rep *lib.Report, r *lib.Rand) {
 	rep.Count(fmt.Sprintf("gov-kinds:open-at-end=%d", n))
 	finish(h, rep, "scenario-gov-kinds")
 }
+
+// runRedelegationOnlyTarget: a target whose ONLY staking record is a redelegation. It redelegates everything while the
+// unbonding time is 21 days, governance shortens the unbonding time (real staking MsgUpdateParams), it undelegates
+// everything from the destination and that short unbonding matures: the redelegation entry outlives both.
+func runRedelegationOnlyTarget(seed int64, cw *CaseWriter, rep *lib.Report, r *lib.Rand) {
+	h := NewHist(seed*1000+979, cw, rep)
+	h.setupBasic()
+	t := tgt0 + 1
+	v0, v1 := val0+r.Intn(3), 0
+	v1 = val0 + (v0-val0+1+r.Intn(2))%3
+	h.Exec(Op{Kind: "delegate", A: 0, V: v0, Amt: fx(1000)})
+	h.Exec(Op{Kind: "delegate", A: t, V: v0, Amt: fx(500)})
+	h.Exec(Op{Kind: "block", Dt: 5 * sec})
+	h.Exec(Op{Kind: "redelegate", A: t, V: v0, W: v1, Amt: fx(500)}) // completes in 21 days
+	h.Exec(Op{Kind: "block", Dt: 5 * sec})
+	h.Exec(mig(0, t, "tx")) // delegation + redelegation: refused
+	h.Exec(Op{Kind: "stakingparams", Dt: 5 * int64(time.Minute)})
+	h.Exec(Op{Kind: "block", Dt: 5 * sec})
+	h.Exec(Op{Kind: "undelegate", A: t, V: v1, Amt: fx(500)}) // completes in 5 minutes
+	h.Exec(Op{Kind: "block", Dt: 5 * sec})
+	h.Exec(mig(0, t, "tx")) // unbonding + redelegation: refused
+	h.Exec(Op{Kind: "block", Dt: 6 * int64(time.Minute)})
+	h.Exec(Op{Kind: "block", Dt: 5 * sec})
+	// only the redelegation record is left
+	only := true
+	for _, d := range h.snap().Dels {
+		if d.KA == h.id(t) {
+			only = false
+		}
+	}
+	for _, u := range h.snap().Ubds {
+		if u.KA == h.id(t) {
+			only = false
+		}
+	}
+	nred := 0
+	for _, u := range h.snap().Reds {
+		if u.KA == h.id(t) {
+			nred++
+		}
+	}
+	if only && nred > 0 {
+		h.tags["target-redelegation-only"] = true
+	}
+	h.Exec(mig(0, t, "tx"))
+	h.Exec(mig(0, t, "srv"))
+	h.Exec(mig(1, tgt0+2, "tx")) // an unrelated pair
+	h.Exec(Op{Kind: "stakingparams", Dt: 21 * day})
+	h.Exec(Op{Kind: "block", Dt: 22 * day}) // the redelegation has matured too
+	h.Exec(Op{Kind: "block", Dt: 5 * sec})
+	h.Exec(mig(0, t, "tx")) // now clean: accepted
+	h.Exec(Op{Kind: "block", Dt: 5 * sec})
+	finish(h, rep, "scenario-redelegation-only-target")
+}
